@@ -10,6 +10,7 @@ import Wheatley.Props.C07
 import Wheatley.Props.C09
 import Wheatley.Lemmas.BotInv
 import Wheatley.Lemmas.Outs
+import Wheatley.Lemmas.Handlers
 namespace Wheatley.C10
 open Wheatley.C06
 
@@ -159,7 +160,7 @@ theorem look_to_ok (b : Bot) :
 
 /-- Every other server message leaves counter, row number and start stroke alone (Bob/Single only set
 a flag of the generator; a queued generator only becomes current at Look To). -/
-theorem msg_ok (b : Bot) (m : Msg) (h : BotInv b) (hop : b.openingRow ≠ []) : BotInv (b.onMsg m).1 := by
+theorem msg_ok (b : Bot) (m : Msg) (h : BotInv b) : BotInv (b.onMsg m).1 := by
   have keep : ∀ b' : Bot, b'.ctl.roundsLeft = b.ctl.roundsLeft → b'.ctl.rowNumber = b.ctl.rowNumber →
       b'.gen.kind = b.gen.kind → BotInv b' := by
     intro b' h1 h2 h3 k hk
@@ -167,8 +168,7 @@ theorem msg_ok (b : Bot) (m : Msg) (h : BotInv b) (hop : b.openingRow ≠ []) : 
     rw [h2, startHand_of_kind _ _ h3]
     exact h k hk
   have hq0 : BotInv ({ b with tower := b.tower.apply m } : Bot) := keep _ rfl rfl rfl
-  have hop0 : ({ b with tower := b.tower.apply m } : Bot).openingRow ≠ [] := hop
-  generalize ({ b with tower := b.tower.apply m } : Bot) = q at hq0 hop0
+  generalize ({ b with tower := b.tower.apply m } : Bot) = q at hq0
   have keepq : ∀ b' : Bot, b'.ctl.roundsLeft = q.ctl.roundsLeft → b'.ctl.rowNumber = q.ctl.rowNumber →
       b'.gen.kind = q.gen.kind → BotInv b' := by
     intro b' h1 h2 h3 k hk
@@ -198,10 +198,13 @@ theorem msg_ok (b : Bot) (m : Msg) (h : BotInv b) (hop : b.openingRow ≠ []) : 
       · first
         | (rcases look_to_ok q with h1 | h1
            · exact h1
-           · exact absurd h1.1 hop0)
+           · rw [h1.2]; exact hq0)
         | (rcases look_to_ok b with h1 | h1
            · exact h1
-           · exact absurd h1.1 hop)
+           · rw [h1.2]; exact h)
+        | (rcases look_to_ok ({ b with tower := b.tower.apply (Msg.call c) } : Bot) with h1 | h1
+           · exact h1
+           · rw [h1.2]; exact keep _ rfl rfl rfl)
       · first | exact hq0 | exact h
     · split
       · first | exact go_ok q hq0 | exact go_ok b h
@@ -556,5 +559,243 @@ def spawned : Bot := ((Bot.init mkPlaceholder true false true (some "Wheatley") 
 example : (spawned.lookTo).1.isRinging = true ∧ (spawned.lookTo).1.row = [1, 2, 3, 4, 5, 6] ∧
       (spawned.lookTo).2.any (fun o => match o with | .crash _ => true | _ => false) = false := by
   decide
+
+/-! ### No run, of any length, under any messages, trips the stroke assertion -/
+
+section Runs
+variable {K : Type} [Num K]
+
+/-- Arming at Look To and the first row of the touch establish the invariant, and do not assert. -/
+theorem arm_start_ok (b : Bot) :
+    BotInv (b.armLookTo.startNextRow true).1 ∧ Out.crash "AssertionError" ∉ (b.armLookTo.startNextRow true).2 := by
+  generalize hd : b.armLookTo = d
+  have hrl : d.roundsLeft = (if !b.upDownIn then none else if d.gen.startHand then some 2 else some 3) := by
+    subst hd; simp [Bot.armLookTo, Generated.upDownInHand, Generated.upDownInBack]
+  have hne : startsNow d.ctl = false := by
+    simp only [startsNow, Bot.ctl, hrl]
+    cases b.upDownIn <;> simp
+    split <;> simp
+  have hstep : ctlStep d.ctl (d.ctlIn true) = .ok (ctlNext d.ctl (d.ctlIn true)) false := by
+    simp [ctlStep, assertFails, hne]
+  refine ⟨?_, startNextRow_no_assert d true _ _ hstep⟩
+  unfold BotInv
+  rw [startNextRow_ctl d true _ _ hstep, startHand_of_kind _ _ (startNextRow_gen_kind d true)]
+  intro k hk
+  simp only [ctlNext, hne, nextRowNumber, Bot.ctlIn, Bot.ctl, hrl] at hk ⊢
+  cases hu : b.upDownIn <;> simp [hu] at hk
+  cases hsh : d.gen.startHand <;> simp [hsh] at hk <;> (obtain ⟨_, hk⟩ := hk; subst hk; simp [handOf])
+
+theorem lookTo_ok (b : Bot) (h : BotInv b) :
+    BotInv b.lookTo.1 ∧ Out.crash "AssertionError" ∉ b.lookTo.2 := by
+  unfold Bot.lookTo
+  split
+  · exact ⟨h, by simp⟩
+  · obtain ⟨h1, h2⟩ := arm_start_ok b
+    refine ⟨h1, ?_⟩
+    simp only [List.cons_append, List.nil_append, List.mem_cons, not_or]
+    exact ⟨by simp, by simp, h2⟩
+
+theorem no_assert_crash (outs : List Out) (h : Out.crash "AssertionError" ∉ outs) :
+    outs.findSome? isCrash ≠ some "AssertionError" := by
+  induction outs with
+  | nil => simp
+  | cons o rest ih =>
+    simp only [List.mem_cons, not_or] at h
+    rw [List.findSome?_cons]
+    cases o with
+    | crash e =>
+      simp only [isCrash]
+      intro he
+      simp only [Option.some.injEq] at he
+      subst he
+      exact h.1 rfl
+    | _ => simp only [isCrash]; exact ih h.2
+
+/-- The invariant of the whole world: the Bot's counter invariant, and the main thread has not died of the
+stroke assertion. -/
+def WInv (w : World K) : Prop := BotInv w.bot ∧ w.crashed ≠ some "AssertionError"
+
+theorem foldl_inv (wt : K → K) (ct : K) (outs : List Out) (w : World K) (h : WInv w) :
+    WInv (outs.foldl (World.applyOut wt ct) w) := by
+  obtain ⟨f1, f2⟩ := foldl_applyOut_bot_crashed wt ct outs w
+  unfold WInv
+  rw [f1, f2]
+  exact h
+
+theorem finishTick_inv (wt : K → K) (w : World K) (bell : Nat) (uc : Bool) (h : WInv w) :
+    WInv (w.finishTick wt bell uc).1 := by
+  unfold World.finishTick
+  simp only []
+  obtain ⟨hb, hc⟩ := turn_ok w.bot bell uc h.1
+  have hw := foldl_inv wt w.now (w.bot.tickEnd bell uc).2 { w with bot := (w.bot.tickEnd bell uc).1 } ⟨hb, h.2⟩
+  split
+  · rename_i e he
+    refine ⟨hw.1, ?_⟩
+    show some e ≠ some "AssertionError"
+    intro h'
+    rw [h'] at he
+    exact no_assert_crash _ hc he
+  · exact hw
+
+theorem afterInner_inv (wt : K → K) (w : World K) (bell : Nat) (uc hand : Bool) (d : K) (js : Bool) (h : WInv w) :
+    WInv (w.afterInner wt bell uc hand d js).1 := by
+  unfold World.afterInner
+  split
+  · split
+    · simp only []
+      split
+      · exact finishTick_inv wt _ bell uc h
+      · exact h
+    · exact finishTick_inv wt _ bell uc h
+  · exact finishTick_inv wt w bell uc h
+
+theorem beginWait_inv (w : World K) (bell : Nat) (uc hand : Bool) (h : WInv w) :
+    WInv (w.beginWait bell uc hand).1 := by
+  unfold World.beginWait
+  split
+  · exact h
+  · simp only []
+    split <;> (split <;> exact h)
+
+/-- One step of the main thread keeps the invariant. -/
+theorem mainStep_inv (wt : K → K) (w : World K) (h : WInv w) : WInv (w.mainStep wt).1 := by
+  unfold World.mainStep
+  split
+  · exact h
+  · -- waitLoaded
+    split
+    · split
+      · split
+        · simp only []
+          obtain ⟨hb, hc⟩ := lookTo_ok w.bot h.1
+          split
+          · rename_i e he
+            refine ⟨(foldl_inv wt _ w.bot.lookTo.2 { w with bot := w.bot.lookTo.1 } ⟨hb, h.2⟩).1, ?_⟩
+            show some e ≠ some "AssertionError"
+            intro h'
+            rw [h'] at he
+            exact no_assert_crash _ hc he
+          · exact foldl_inv wt _ w.bot.lookTo.2 { w with bot := w.bot.lookTo.1 } ⟨hb, h.2⟩
+        · exact h
+      · exact h
+    · exact ⟨h.1, by show some "SocketIOClientError" ≠ _; decide⟩
+  · exact h
+  · -- idleCheck
+    split
+    · exact h
+    · exact foldl_inv wt w.now _ { w with pc := .ringCheck } h
+  · split
+    · exact h
+    · exact h
+  · -- ringCheck
+    split
+    · split
+      · exact ⟨h.1, by show some "IndexError" ≠ _; decide⟩
+      · exact beginWait_inv w _ _ _ h
+    · exact foldl_inv wt w.now _ { w with pc := .outerTop } h
+  · split
+    · exact h
+    · exact afterInner_inv wt w _ _ _ _ _ h
+  · apply afterInner_inv
+    split <;> exact h
+  · exact afterInner_inv wt w _ _ _ _ _ h
+  · exact h
+
+/-- The delivery of any event keeps the invariant. -/
+theorem deliver_inv (wt : K → K) (w : World K) (e : Ev) (h : WInv w) : WInv (World.deliver wt w e) := by
+  cases e with
+  | resume =>
+    unfold World.deliver
+    simp only []
+    split
+    · rename_i s _
+      unfold World.lookToResume World.lookToRest
+      simp only []
+      have hin : (World.lookToInner ({ w with suspended := none } : World K) s).bot = w.bot ∧
+          (World.lookToInner ({ w with suspended := none } : World K) s).crashed = w.crashed := by
+        unfold World.lookToInner
+        split
+        · obtain ⟨_, _, h3⟩ := withReg_pc_obs ({ w with suspended := none } : World K) _
+          exact ⟨h3, withReg_crashed _ _⟩
+        · exact ⟨rfl, rfl⟩
+      generalize World.lookToInner ({ w with suspended := none } : World K) s = wi at hin
+      obtain ⟨hb, _⟩ := arm_start_ok wi.bot
+      have hw := foldl_inv wt wi.now (wi.bot.armLookTo.startNextRow true).2
+        { wi with bot := (wi.bot.armLookTo.startNextRow true).1 } ⟨hb, by show wi.crashed ≠ _; rw [hin.2]; exact h.2⟩
+      split
+      · exact hw
+      · exact hw
+    · exact h
+  | msg m =>
+    unfold World.deliver
+    simp only []
+    split
+    · unfold World.lookToBegin
+      exact h
+    · unfold World.deliverMsg
+      simp only []
+      have hw := foldl_inv wt w.now (w.bot.onMsg m).2 { w with bot := (w.bot.onMsg m).1 } ⟨msg_ok w.bot m h.1, h.2⟩
+      split
+      · exact hw
+      · exact hw
+
+theorem sleep_go_inv (wt : K → K) (limit : K) :
+    ∀ (events : List (K × Ev)) (w : World K), WInv w → WInv (World.sleep.go wt limit w events).1 := by
+  intro events
+  induction events with
+  | nil => intro w h; exact h
+  | cons ev rest ih =>
+    intro w h
+    obtain ⟨t, m⟩ := ev
+    unfold World.sleep.go
+    split
+    · apply ih
+      apply deliver_inv
+      split
+      · exact h
+      · exact h
+    · exact h
+
+theorem sleep_inv (wt : K → K) (endTime : K) (w : World K) (d : K) (events : List (K × Ev)) (h : WInv w) :
+    WInv (World.sleep wt endTime w d events).1 := by
+  unfold World.sleep
+  simp only []
+  split
+  · exact sleep_go_inv wt endTime events w h
+  · exact sleep_go_inv wt (w.now + d) events w h
+
+/-- Every state the world can reach - any number of steps, any events at any times - satisfies the invariant. -/
+theorem run_inv (wt : K → K) (endTime : K) :
+    ∀ (fuel : Nat) (w : World K) (events : List (K × Ev)), WInv w → WInv (World.run wt endTime fuel w events).1 := by
+  intro fuel
+  induction fuel with
+  | zero => intro w events h; exact h
+  | succ fuel ih =>
+    intro w events h
+    unfold World.run
+    have hs := mainStep_inv wt w h
+    split
+    · rename_i w1 heq; rw [heq] at hs; exact hs
+    · rename_i w1 heq; rw [heq] at hs; exact ih w1 events hs
+    · rename_i w1 d heq
+      rw [heq] at hs
+      have hsl := sleep_inv wt endTime w1 d events hs
+      simp only []
+      split
+      · exact hsl
+      · exact ih _ _ hsl
+
+/-- **The stroke assertion of `start_next_row` never kills the main loop**: start Wheatley with any generator,
+any options, any rhythm; deliver any messages whatsoever, at any times, for as long as you like - selections,
+calls in any order, size changes, strikes, settings, Look To during a touch, Go at any moment.  The main thread
+does not die of `AssertionError`. -/
+theorem never_fails_the_stroke_assertion (wt : K → K) (endTime now : K) (g : Gen) (u s c : Bool) (n : Option String)
+    (id : Option Nat) (rh : Rh K) (tape : List (K × K)) (lookToTime : Option K) (fuel : Nat)
+    (events : List (K × Ev)) :
+    (World.run wt endTime fuel (World.init now (Bot.init g u s c n id) rh tape lookToTime) events).1.crashed
+      ≠ some "AssertionError" :=
+  (run_inv wt endTime fuel _ events ⟨init_ok g u s c n id, by simp [World.init]⟩).2
+
+end Runs
 
 end Wheatley.C10
